@@ -4,3 +4,4 @@ pub mod civil;
 pub mod etdb;
 pub mod leap;
 pub mod scales;
+pub mod text;
